@@ -11,10 +11,12 @@ mod hblocks;
 mod mt;
 mod datagen;
 mod hdlc;
+mod iosim;
 mod rig;
 mod rigcheck;
 mod rt;
 mod src;
+mod sys;
 
 use engine::{Check, DEFAULT_SEED, Tier};
 
@@ -33,8 +35,11 @@ fn checks() -> Vec<Box<dyn Check>> {
         Box::new(rigcheck::RigCheck { prop: "C11" }),
         Box::new(rigcheck::RigCheck { prop: "C12" }),
         Box::new(c13::HdlcCheck),
+        Box::new(iosim::FormatCheck),
         Box::new(c15::HostileCheck),
         Box::new(c16::SourceCheck),
+        Box::new(iosim::FileSinkCheck),
+        Box::new(iosim::MappingCheck),
         Box::new(c19::DeriveCheck),
     ]
 }
@@ -99,6 +104,9 @@ fn main() {
                 std::process::exit(2);
             };
             std::process::exit(engine::run_check(c.as_ref(), tier, seed, runs));
+        }
+        "crash-child" => {
+            std::process::exit(iosim::crash_child(&args[2..]));
         }
         "replay" => {
             if args.len() < 3 {
